@@ -1,17 +1,21 @@
 ------------------------------ MODULE MC_MergeTool ------------------------------
 (* Configurations of the bigwigmerge tool: input sets (values starting at base 0, chromosomes
-   missing from some inputs, cancelling values), clip / adjust / threshold, output naming. *)
+   missing from some inputs, cancelling values, 980 inputs), clip / adjust / threshold, output naming. *)
 EXTENDS Merge, Json
 VARIABLES cfg, step
 Fields == <<"ds", "clip", "adjust", "thr", "out", "threads">>
-Dom(f) == CASE f = "ds" -> {1, 2, 3} [] f = "clip" -> {0, 2} [] f = "adjust" -> {0, 1, 3} [] f = "thr" -> {0, 1, 4, 50}
+Dom(f) == CASE f = "ds" -> {1, 2, 3, 4} [] f = "clip" -> {0, 2} [] f = "adjust" -> {0, 1, 3} [] f = "thr" -> {0, 1, 4, 50}
             [] f = "out" -> {"bw", "bigWig", "bedGraph", "type-bigwig", "type-BedGraph"} [] f = "threads" -> {1, 4}
 \* inputs: per bigWig a list of <<chrom, s, e, v>>
 Inputs(ds) == CASE ds = 1 -> << << <<1, 0, 3, 1>>, <<1, 5, 8, 2>>, <<2, 0, 2, 1>> >>, << <<1, 2, 6, 1>>, <<2, 1, 4, 3>> >> >>
                 [] ds = 2 -> << << <<1, 0, 2, 2>>, <<1, 4, 6, 1>> >>, << <<1, 1, 3, 1>>, <<2, 3, 5, 2>> >>, << <<2, 0, 1, 1>>, <<2, 4, 7, 1>> >> >>
                 [] ds = 3 -> << << <<1, 0, 1, 5>> >>, << <<1, 0, 4, 1>>, <<2, 2, 3, 1>> >> >>
+                \* ds 4: MANY inputs (more than the tool keeps open at once: it then merges in chunks): the first input
+                \* 976 times, the second 4 times; partial sums of the first chunk are negative where the total is positive
+                [] ds = 4 -> << << <<1, 0, 4, -1>>, <<1, 6, 8, 1>> >>, << <<1, 2, 8, 300>>, <<2, 0, 2, 5>> >> >>
+Mult(ds) == IF ds = 4 THEN <<976, 4>> ELSE [i \in 1..Len(Inputs(ds)) |-> 1]
 Init == cfg = <<>> /\ step = 1
 Next == step <= Len(Fields) /\ \E v \in Dom(Fields[step]) : cfg' = Append(cfg, v) /\ step' = step + 1
 Done == step > Len(Fields)
-Emit == Done => PrintT(<<"REPLAY", ToJson([ds |-> cfg[1], inputs |-> Inputs(cfg[1]), clip |-> cfg[2], adjust |-> cfg[3], thr |-> cfg[4], out |-> cfg[5], threads |-> cfg[6]])>>)
+Emit == Done => PrintT(<<"REPLAY", ToJson([ds |-> cfg[1], inputs |-> Inputs(cfg[1]), mult |-> Mult(cfg[1]), clip |-> cfg[2], adjust |-> cfg[3], thr |-> cfg[4], out |-> cfg[5], threads |-> cfg[6]])>>)
 =============================================================================
